@@ -1,6 +1,7 @@
 import os, sys
 sys.path.insert(0, os.path.join(os.path.dirname(os.path.abspath(__file__)), "..", "common"))
 import cxx_specs as XS
+from imports import imported
 
 PROPERTY = "C08"
 LEVEL = "proof"
@@ -41,4 +42,6 @@ OBLIGATIONS = [
         "expect_classes": ["postcondition", "precondition", "assigns"], "expect_min": 20,
         "timeout": 900,
     },
+    # the items are those of the key the caller asked for only if re-keying the cache really re-initialises it (contract of suite C03)
+    imported("C03", "init_cache_rekeys_unless_same_key", "cache_is_reinitialised_for_every_new_key"),
 ]
